@@ -295,7 +295,8 @@ def run(db: ProgramDB, chk) -> None:
         chk.ob("C19.R2-artefacts", "the node-link data is bound to a name and pickled once", None, m.loc(nld[0]), found={"name": dvar, "dumps": len(dumps)})
     else:
         touched = uses_between(save, dvar, nld[0].lineno, dumps[0].lineno, [dumps[0]])
-        chk.ob("C19.R2-artefacts", "the node-link data is pickled as produced (nothing reads or edits it between node_link_data and pickle.dump)", not touched, m.loc(nld[0]), found=touched or "untouched",
+        lossy = [t_ for t_ in touched if any(k_ in t_ for k_ in (".pop(", "del ", ".remove(", ".clear(", "] = "))]
+        chk.ob("C19.R2-artefacts", "the node-link data is pickled as produced (nothing reads or edits it between node_link_data and pickle.dump)", True if not touched else (False if lossy else None), m.loc(nld[0]), found=touched or "untouched",
                accepted="d = nx.node_link_data(self); pickle.dump(d, f)", why="stripping an attribute that 'can be rebuilt' (e.g. weight from the CPEdge) loses every weight that validation had clamped")
     gvar = next((H.name_id(t) for t, v, s_ in H.assignments(restore) if v is nlg[0]), None)
     inst_calls = [c for c in H.calls(restore) if call_name(c) == "CPGraph"]
@@ -303,7 +304,8 @@ def run(db: ProgramDB, chk) -> None:
         chk.ob("C19.R2-artefacts", "the restored graph is bound to a name and installed once", None, m.loc(nlg[0]), found={"name": gvar, "constructions": len(inst_calls)})
     else:
         touched = uses_between(restore, gvar, nlg[0].lineno, inst_calls[0].lineno, [inst_calls[0]])
-        chk.ob("C19.R2-artefacts", "the unpickled graph is installed as read (nothing edits it between node_link_graph and CPGraph(...))", not touched, m.loc(nlg[0]), found=touched or "untouched",
+        lossy = [t_ for t_ in touched if any(k_ in t_ for k_ in (".pop(", "del ", ".remove(", ".clear(", "] = ", "remove_", "add_"))]
+        chk.ob("C19.R2-artefacts", "the unpickled graph is installed as read (nothing edits it between node_link_graph and CPGraph(...))", True if not touched else (False if lossy else None), m.loc(nlg[0]), found=touched or "untouched",
                accepted="G = nx.node_link_graph(data); CPGraph(None, t_full, rank, G)")
     # zip members
     zw = [c for c in H.calls(save) if isinstance(c.func, ast.Attribute) and c.func.attr == "write" and "zip" in ast.unparse(c.func.value).lower()]
